@@ -171,10 +171,7 @@ def expect(model, oids=None, tids=None, iter_level=1, undo=True):
         ul = model.undoLog()
         exp[('undoLog',)] = ul
         exp[('undoInfo',)] = ul
-        # a slice is only defined when no empty transaction is involved
-        # (empty transactions may be omitted from the log, see _undo_match)
-        exp[('undoLog', 1, 3)] = ul[1:3] if all(d['_n'] for d in ul) \
-            else None
+        exp[('undoLog', 1, 3)] = ul[1:3]
     for q in iter_queries(tids, iter_level):
         exp[('iterator',) + q] = model.iterate(*q)
     if flavor == 'F':
@@ -236,17 +233,16 @@ def compare(exp, obs, model=None):
 
 
 def _undo_match(e, g):
-    """Every transaction with records is listed, newest first, with its
-    metadata; a transaction without records has nothing to undo and may be
-    listed or not."""
+    """Every transaction is listed, newest first, with its metadata (also
+    one without records)."""
     g = list(g)
-    for d in e:
+    if len(g) != len(e):
+        return False
+    for d, got in zip(e, g):
         want = {k: v for k, v in d.items() if k not in ('_n', '_dup')}
-        if g and g[0] == want:
-            g.pop(0)
-        elif d['_n']:
+        if got != want:
             return False
-    return not g
+    return True
 
 
 def _hist_match(e, g, model):
